@@ -307,11 +307,50 @@ def rule_sametext(prog, rep):
                     "the parser is run on `%s` while the SourceFile keeps `%s`: offsets of nodes, names and syntax errors are relative to a different text than the one they are resolved against (line / column and name spans are shifted)" % (given[:90], stored), news[0].loc())
 
 
+def rule_sources(prog, rep):
+    """C11.SOURCES: a location is a (file id, span); it means something only together with the
+    source map that resolves the file id.  An executable document built from several sources must
+    carry the union of their source maps: the builder *extends* its maps for every added
+    document (never replaces them), and the finished document takes the accumulated map."""
+    from ..flow import derives
+    rep.floor("C11.SOURCES", 2)
+    B = r"^apollo_compiler::executable::from_ast::ExecutableDocumentBuilder::<'schema, 'errors>::"
+    for nm in ("add_ast_document", "add_ast_document_not_adding_sources"):
+        f = prog.fn(B + nm + "$")
+        over = []
+        for b in sorted(f.live_blocks()):
+            for st in f.stmts(b):
+                if st[0] == "=" and st[1][1] and isinstance(st[1][1][-1], list) and st[1][1][-1][0] == "f" and st[1][1][-1][2] == "sources":
+                    over.append(b)
+        ext = [c for c in f.live_calls() if re.search(r"Extend<[^>]*>>?::extend$|::extend$", c.name) and re.search(r"arg1\)?\.(errors|document)\)?\.sources", f.sym(c.args[0]))]
+        ok = not over and len(ext) >= 1 and all("arg2" in f.sym(c.args[1]) and "sources" in f.sym(c.args[1]) for c in ext)
+        rep.obligation(ok)
+        if ok:
+            rep.instance("C11.SOURCES", "%s extends the builder's source map with the added document's sources" % nm)
+        else:
+            rep.finding("C11.SOURCES", f.name, "sources:" + nm,
+                        "%s %s: the file ids of nodes that came from earlier documents are then missing from the built document's source map, and their locations cannot be resolved (no line/column, no `locations` in JSON errors)" % (
+                            nm, "replaces the builder's source map" if over else "does not add the document's sources to the builder's source map"), f.loc())
+    g = prog.fn(B + "build_inner$")
+    ok = False
+    for b in sorted(g.live_blocks()):
+        for st in g.stmts(b):
+            if st[0] == "=" and st[1][1] and isinstance(st[1][1][-1], list) and st[1][1][-1][0] == "f" and st[1][1][-1][2] == "sources":
+                paths, _ = derives(g, st[2][1] if st[2][0] == "use" else st[2])
+                ok = ok or any(re.search(r"errors.*\.sources$|\.sources$", q) and "errors" in q for q in paths)
+    rep.obligation(ok)
+    if ok:
+        rep.instance("C11.SOURCES", "build_inner: the document takes the source map accumulated in the diagnostics list (every file added so far)")
+    else:
+        rep.finding("C11.SOURCES", g.name, "sources:build", "the built ExecutableDocument does not take the accumulated source map (errors.sources)", g.loc())
+
+
 def run(prog, rep):
     rule_loc(prog, rep)
     rule_nameloc(prog, rep)
     rule_units_lines(prog, rep)
     rule_json(prog, rep)
     rule_sametext(prog, rep)
+    rule_sources(prog, rep)
     rep.assume("ariadne 0.6.0 (pinned by Cargo.lock): Source::from splits lines at LF, CR(LF), VT, FF, NEL, LS, PS; get_byte_line returns (line, line index, byte offset within the line)")
     rep.note("that every AST/schema/executable node carries a location is decided for the CST->AST conversion only; later stages clone these nodes")
